@@ -597,3 +597,41 @@ func vfH_prepared_seq() {
 	}
 	vfReach("prepared-seq-end")
 }
+
+// vfH_comp_other_conn (C01 / C10): a compressed message on connection A is
+// cut short by a transport fault at any write-side operation; afterwards a
+// healthy connection B (same role and level, hence the same pooled compressor
+// state) sends a compressed message, which must decode to exactly what was
+// sent: whatever a failed connection leaves in the shared pools must not leak
+// into another connection's stream.
+func vfH_comp_other_conn() {
+	vfInit()
+	isServer := vfChoose(2) == 1
+	W := 4
+	// the compressor hands its output over in one piece or in two (as the real
+	// one does for larger outputs), so that a fault can fall between them
+	vfFlateEmit = vfPick([]int{0, 3, 7, 20})
+	ta := vfNewConn(nil)
+	ta.wfailAt = vfChoose(5)
+	ta.wfault = 1 + vfChoose(3)
+	ca := newConn(ta, isServer, 0, W, nil, nil, nil)
+	ca.newCompressionWriter = compressNoContextTakeover
+	wp := vfPick([]int{vfWPWriteMessage, vfWPWriterSplit, vfWPImplicitClose})
+	n := vfPick([]int{1, 2*(W+14) + 1})
+	errA := vfDoWrite(ca, wp, BinaryMessage, vfBytes(n), 1)
+	if ca.writer != nil {
+		// the application abandons the failed connection's open writer by closing it
+		ca.writer.Close()
+	}
+	if ta.wfailed && wp != vfWPImplicitClose {
+		vfAssert(errA != nil, "c10-failed-step-reports-error")
+	}
+	tb := vfNewConn(nil)
+	cb := newConn(tb, isServer, 0, W, nil, nil, nil)
+	cb.newCompressionWriter = compressNoContextTakeover
+	db := vfBytes(5)
+	orig := append([]byte(nil), db...)
+	vfAssert(cb.WriteMessage(TextMessage, db) == nil, "write-accepted")
+	vfJudgeWire(tb.wire(), !isServer, true, []vfSent{{TextMessage, orig, true}}, 0)
+	vfReach("comp-other-conn-end")
+}
